@@ -5,7 +5,8 @@
 (*   decides  that the input is inside the statement's quantifier, that the   *)
 (*            specification's own K and Pi satisfy the claimed identities on  *)
 (*            this very hypergraph (exact rationals), and that every sampled  *)
-(*            walk has the requested shape and only takes K-positive steps;   *)
+(*            walk only takes K-positive steps (its start and length are      *)
+(*            "model_" clauses: not promised by the statement);               *)
 (*   emits    K (rows of <<num, den>>) and Pi as exact rationals: the harness *)
 (*            compares transition_matrix, RW_stationary_state and every       *)
 (*            random_walk_density step with them.                             *)
@@ -23,8 +24,8 @@ C18Clauses(c) ==
   {<<"spec_row_stochastic", \A i \in S.nodes : LET F(j) == K[i, j] IN RSumSet(F, S.nodes) = ROne>>,
    <<"spec_pi_stationary", RWPushK(S.nodes, K, pi) = pi /\ RWMass(S, pi) = ROne>>}
   \cup (IF Has(c, "walks") THEN
-         {<<"walk_starts_at_s", \A w \in Rng(c.walks) : Len(w.nodes) >= 1 /\ w.nodes[1] = w.s>>,
-          <<"walk_length", \A w \in Rng(c.walks) : Len(w.nodes) = w.time + 1>>,
+         {<<"model_walk_starts_at_s", \A w \in Rng(c.walks) : Len(w.nodes) >= 1 /\ w.nodes[1] = w.s>>,
+          <<"model_walk_length", \A w \in Rng(c.walks) : Len(w.nodes) = w.time + 1>>,
           <<"walk_steps_share_a_hyperedge", \A w \in Rng(c.walks) : RWPathAllowed(S, w.nodes)>>}
         ELSE {})
 
